@@ -16,7 +16,8 @@ ENC = ("fim.slivers.network_node.NodeSliver.diff", "fim.slivers.network_service.
        "fim.slivers.base_sliver.BaseSliver._dict_diff", "fim.slivers.base_sliver.BaseSliver._dict_common",
        "fim.slivers.base_sliver.BaseSliver.__eq__", "fim.slivers.base_sliver.BaseSliver.__hash__",
        "fim.slivers.capacities_labels.Capacities.__eq__", "fim.slivers.capacities_labels.Labels.__eq__")
-UD = [None, {'k': 1}, {'k': 2}]
+UD = [None, {'k': 1, 'j': [2]}, {'k': 2, 'j': [2]}, '{"j": [2], "k": 1}']   # 3: the VALUE of 1 spelled as JSON text, other key order
+UD_VALUE = [0, 1, 2, 1]
 
 
 def props(s, core, hascap, ln, haslab, ud):
@@ -26,7 +27,7 @@ def props(s, core, hascap, ln, haslab, ud):
     if haslab:
         s.set_labels(Labels(local_name=ln))
     if ud:
-        s.set_user_data(UserData(dict(UD[ud])))
+        s.set_user_data(UserData(dict(UD[ud]) if isinstance(UD[ud], dict) else UD[ud]))
     return s
 
 
@@ -36,7 +37,7 @@ def exp_flags(c0, hc0, l0, hl0, u0, c1, hc1, l1, hl1, u1):
         f |= WhatsModifiedFlag.LABELS
     if hc0 != hc1 or (hc0 and c0 != c1):
         f |= WhatsModifiedFlag.CAPACITIES
-    if u0 != u1:
+    if UD_VALUE[u0] != UD_VALUE[u1]:
         f |= WhatsModifiedFlag.USER_DATA
     return f
 
@@ -159,14 +160,14 @@ def _flag_case(kind, c0, hc0, l0, hl0, u0, c1, hc1, l1, hl1, u1):
 
 
 FLAG_B = ("both sides present; capacities (symbolic int core, presence bit), labels (symbolic str len<=1, presence bit), "
-          "user data in {none, A, B} incl. equal-valued distinct objects, on each side")
+          "user data in {none, A, B, A spelled as JSON text with another key order} incl. equal-valued distinct objects, on each side")
 
 
 @harness("node_self_modified_flags", timeout=300, encodes=ENC, finding="userdata", bounds="node itself: " + FLAG_B)
 def h_node_flags(c0: int, hc0: bool, l0: str, hl0: bool, u0: int, c1: int, hc1: bool, l1: str, hl1: bool, u1: int) -> bool:
     """
     pre: c0 >= 0 and c1 >= 0 and len(l0) <= 1 and len(l1) <= 1
-    pre: 0 <= u0 <= 2 and 0 <= u1 <= 2
+    pre: 0 <= u0 <= 3 and 0 <= u1 <= 3
     post: R(_)
     """
     return _flag_case('node', c0, hc0, l0, hl0, u0, c1, hc1, l1, hl1, u1)
@@ -176,7 +177,7 @@ def h_node_flags(c0: int, hc0: bool, l0: str, hl0: bool, u0: int, c1: int, hc1: 
 def h_comp_flags(c0: int, hc0: bool, l0: str, hl0: bool, u0: int, c1: int, hc1: bool, l1: str, hl1: bool, u1: int) -> bool:
     """
     pre: c0 >= 0 and c1 >= 0 and len(l0) <= 1 and len(l1) <= 1
-    pre: 0 <= u0 <= 2 and 0 <= u1 <= 2
+    pre: 0 <= u0 <= 3 and 0 <= u1 <= 3
     post: R(_)
     """
     return _flag_case('comp', c0, hc0, l0, hl0, u0, c1, hc1, l1, hl1, u1)
@@ -186,7 +187,7 @@ def h_comp_flags(c0: int, hc0: bool, l0: str, hl0: bool, u0: int, c1: int, hc1: 
 def h_svc_flags(c0: int, hc0: bool, l0: str, hl0: bool, u0: int, c1: int, hc1: bool, l1: str, hl1: bool, u1: int) -> bool:
     """
     pre: c0 >= 0 and c1 >= 0 and len(l0) <= 1 and len(l1) <= 1
-    pre: 0 <= u0 <= 2 and 0 <= u1 <= 2
+    pre: 0 <= u0 <= 3 and 0 <= u1 <= 3
     post: R(_)
     """
     return _flag_case('svc', c0, hc0, l0, hl0, u0, c1, hc1, l1, hl1, u1)
@@ -254,7 +255,7 @@ def h_ns_addrem(o: List[bool], n: List[bool], so: List[bool], sn: List[bool], eo
 def h_if_flags(c0: int, hc0: bool, l0: str, hl0: bool, u0: int, c1: int, hc1: bool, l1: str, hl1: bool, u1: int) -> bool:
     """
     pre: c0 >= 0 and c1 >= 0 and len(l0) <= 1 and len(l1) <= 1
-    pre: 0 <= u0 <= 2 and 0 <= u1 <= 2
+    pre: 0 <= u0 <= 3 and 0 <= u1 <= 3
     post: R(_)
     """
     old, new = mk_ns('svc', ['p0', 'p1']), mk_ns('svc', ['p0', 'p1'])
@@ -336,7 +337,7 @@ def h_smartnic(o: List[bool], n: List[bool], l0: str, l1: str) -> bool:
 def h_copy(c0: int, l0: str, u0: int, c1: int, l1: str, u1: int) -> bool:
     """
     pre: c0 >= 0 and c1 >= 0 and len(l0) <= 1 and len(l1) <= 1
-    pre: 0 <= u0 <= 2 and 0 <= u1 <= 2
+    pre: 0 <= u0 <= 3 and 0 <= u1 <= 3
     post: R(_)
     """
     nic = mk_comp('nic1', ComponentType.SmartNIC)
